@@ -34,13 +34,23 @@ try:
     rc1, out1 = sh(f"go test -vet=off -count=1 {flags}-run '^{tname}$' .", cwd=repo)
     res["demo_fails_with"] = rc1 != 0
     os.remove(os.path.join(repo, "zz_demo_test.go"))
-    rc, out = sh(f"/verif/bin/pvc check -repo {repo} {prop} quick", cwd="/verif")
-    viol = [l for l in out.splitlines() if l.startswith("VIOLATION")]
-    res["check_rc"] = rc
-    res["violations"] = [l.split("obligation=")[1] if "obligation=" in l else l for l in viol][:8]
-    res["caught"] = rc == 1 and len(viol) > 0
-    if rc not in (0, 1):
-        res["check_output"] = out[-600:]
+    # the check of the property the seed was written against, then (only if that one is silent) the checks of
+    # the neighbouring properties named with --also=Cxx,Cyy
+    also = [a.split("=")[1].split(",") for a in sys.argv if a.startswith("--also=")]
+    props = [prop] + (also[0] if also else [])
+    res["caught"] = False
+    for pr in props:
+        rc, out = sh(f"/verif/bin/pvc check -repo {repo} {pr} quick", cwd="/verif")
+        viol = [l for l in out.splitlines() if l.startswith("VIOLATION")]
+        if pr == prop or (rc == 1 and viol):
+            res["check_rc"] = rc
+            res["violations"] = [l.split("obligation=")[1] if "obligation=" in l else l for l in viol][:8]
+            res["caught_by"] = pr
+        if rc == 1 and len(viol) > 0:
+            res["caught"] = True
+            break
+        if rc not in (0, 1):
+            res["check_output"] = out[-600:]
 finally:
     shutil.rmtree(tmp, ignore_errors=True)
 print(json.dumps(res, indent=1))
